@@ -3,10 +3,12 @@
    Statements only; proofs in proofs/PolyFacts.v and proofs/AlgebraSound.v, proofs/IfaceFacts.v. *)
 From Coq Require Import List String Bool QArith Reals.
 Import ListNotations.
-Require Import Py ListsGen AlgebraGen AlgebraSpec AlgebraSound Sem Term Poly PolySpec TermFacts PolyLP PolyFacts.
+Require Import Py ListsGen ConstGen AlgebraGen AlgebraSpec AlgebraSound IfaceSpec IfaceFacts Sem Term Poly PolySpec TermFacts PolyLP PolyFacts.
 
-Theorem C03_sound : forall O, lp_spec 0 O -> forall A B, wfl A -> wfl B ->
-  poly_refines O A B = inl true -> forall rho, sat_list rho A -> sat_list rho B.
+(* True only for containment, up to the numerical tolerance the code grants the LP optimum
+   (REFINEMENT_TOLERANCE is read from the source by the translator) *)
+Theorem C03_sound : forall O, lp_spec 0 O -> forall A B, wfl A -> wfl B -> small_consts B ->
+  poly_refines O A B = inl true -> forall rho, sat_list rho A -> Forall (sat_tol REFINEMENT_TOLERANCE rho) B.
 Proof. exact PolyFacts.refines_sound. Qed.
 Print Assumptions C03_sound.
 
@@ -19,6 +21,13 @@ Print Assumptions C03_complete.
 Theorem C03_false_has_witness : forall O, lp_spec 0 O -> forall A B, wfl A -> wfl B ->
   (A = [] -> nz_terms B) ->
   poly_refines O A B = inl false -> exists rho, sat_list rho A /\ ~ sat_list rho B.
+Proof. exact refines_false_witness_exact. Qed.
+Print Assumptions C03_false_has_witness.
+
+(* ... and for a satisfiable right side the witness violates by more than the tolerance *)
+Theorem C03_false_has_tolerant_witness : forall O, lp_spec 0 O -> forall A B, wfl A -> wfl B ->
+  small_consts B -> (exists rho', sat_list rho' B) -> (A = [] -> nz_terms B) ->
+  poly_refines O A B = inl false -> exists rho, sat_list rho A /\ ~ Forall (sat_tol REFINEMENT_TOLERANCE rho) B.
 Proof. exact refines_false_witness. Qed.
 Print Assumptions C03_false_has_witness.
 
@@ -65,3 +74,8 @@ Theorem C03_implementation : forall (D : Domain) (B : Type) (dt : term -> B -> P
   forall b, den B dt comp b -> den B dt (c_a c) b -> den B dt (c_g c) b.
 Proof. exact @contains_implementation_sound. Qed.
 Print Assumptions C03_implementation.
+
+(* contracts with different interfaces are not compared *)
+Theorem C03_rejects_interfaces : forall (D : Domain) c1 c2, different_interfaces c1 c2 -> IoContract_refines c1 c2 = inr IncompatibleArgs.
+Proof. exact @refines_rejects. Qed.
+Print Assumptions C03_rejects_interfaces.
